@@ -1374,6 +1374,19 @@ void XMLScanner::scanProlog()
 //  The parameter tells us which type of decl we should expect, Text or XML.
 //    [23] XMLDecl ::= '<?xml' VersionInfo EncodingDecl? SDDecl? S? '?>'
 //    [77] TextDecl::= '<?xml' VersionInfo? EncodingDecl S? '?>'
+//  VersionNum ::= '1.' [0-9]+  (XML 1.0, production [26])
+static bool isVersionNum1x(const XMLCh* const value)
+{
+    if (value[0] != chDigit_1 || value[1] != chPeriod || !value[2])
+        return false;
+    for (const XMLCh* p = value + 2; *p; p++)
+    {
+        if (!XMLString::isDigit(*p))
+            return false;
+    }
+    return true;
+}
+
 void XMLScanner::scanXMLDecl(const DeclTypes type)
 {
     // Get us some buffers to use
@@ -1480,7 +1493,9 @@ void XMLScanner::scanXMLDecl(const DeclTypes type)
                     fReaderMgr.setXMLVersion(XMLReader::XMLV1_0);
                 }
             }
-            else if (XMLString::startsWith(rawValue, XMLUni::fgVersion1)) {
+            else if (XMLString::startsWith(rawValue, XMLUni::fgVersion1)
+                  && isVersionNum1x(rawValue)) {
+                // VersionNum ::= '1.' [0-9]+ ; every 1.x other than 1.1 is processed as 1.0
                 if (type == Decl_XML) {
                     fXMLVersion = XMLReader::XMLV1_0;
                     fReaderMgr.setXMLVersion(XMLReader::XMLV1_0);
